@@ -204,7 +204,7 @@ class Interp(ExprMixin, CallMixin):
             a, b = b, a
         if isinstance(a, Sym):
             if isinstance(b, (Const, Sentinel, ClassV, ExtV)):
-                if "nonsentinel" in a.tags and isinstance(b, Sentinel):
+                if "nonsentinel" in a.tags and (isinstance(b, Sentinel) or (isinstance(b, Const) and b.value is None)):
                     return [(st, False)]
                 if isinstance(b, Sentinel) and b.truthy:
                     return [(st, False)]   # a private `object()` marker is never an input value
